@@ -4,6 +4,7 @@ TIER=${1:-quick}; SEED=${2:-0}; shift; shift
 LIST="$@"; [ -z "$LIST" ] && LIST=$(/venv/bin/python -c "import json;print(' '.join(c['property_id'] for c in json.load(open('MANIFEST.json'))['checks']))")
 for C in $LIST; do
   S=$(date +%s)
-  OUT=$(/venv/bin/python check.py $C --tier $TIER --seed $SEED 2>&1 | grep -v "^KNOWN-FINDING\|^NOTE\|conda")
-  echo "$C rc=$? $(( $(date +%s) - S ))s :: $(echo "$OUT" | head -3 | cut -c1-300 | tr '\n' '|')"
+  RAW=$(/venv/bin/python check.py $C --tier $TIER --seed $SEED 2>&1); RC=$?
+  OUT=$(echo "$RAW" | grep -v "^KNOWN-FINDING\|^NOTE\|conda")
+  echo "$C rc=$RC $(( $(date +%s) - S ))s :: $(echo "$OUT" | head -3 | cut -c1-300 | tr '\n' '|')"
 done
